@@ -68,14 +68,24 @@ func fileOf(pos string) string {
 	return pos
 }
 
+// SiteNormalizer, when set by a worker main, abstracts the file and function of a site before
+// they enter a race signature (family B strips design, service and method numbers of generated
+// code: the root cause of a race in generated code is the template, not the design).
+var SiteNormalizer func(file, fn string) (string, string)
+
 // Signature is the stable abstract class of a race: variable, functions and file, access kinds;
 // no line numbers, no thread ids, symmetric in the two accesses.
 func (r Race) Signature() string {
 	pp, pf, pe := splitSite(r.PrevSite)
 	cp, cf, ce := splitSite(r.CurSite)
 	kinds := strings.SplitN(r.Kind, "-vs-", 2)
-	a := fmt.Sprintf("%s@%s:%s", kinds[0], fileOf(pp), pf)
-	b := fmt.Sprintf("%s@%s:%s", kinds[len(kinds)-1], fileOf(cp), cf)
+	pfile, cfile := fileOf(pp), fileOf(cp)
+	if SiteNormalizer != nil {
+		pfile, pf = SiteNormalizer(pfile, pf)
+		cfile, cf = SiteNormalizer(cfile, cf)
+	}
+	a := fmt.Sprintf("%s@%s:%s", kinds[0], pfile, pf)
+	b := fmt.Sprintf("%s@%s:%s", kinds[len(kinds)-1], cfile, cf)
 	if b < a {
 		a, b = b, a
 	}
